@@ -125,7 +125,7 @@ def run(ctx):
 
     def filter_alone():
         go = ctx.gotest("pkg/net/retransmission", "^TestVerif_C16_Filter$", ["c16_test.go"], label="filter",
-                        env={"VERIF_FILTER_ROUNDS": ctx.pick(1500, 15000), "VERIF_FILTER_TRACED": ctx.pick(60, 400)})
+                        env={"VERIF_FILTER_ROUNDS": ctx.pick(4000, 30000), "VERIF_FILTER_TRACED": ctx.pick(60, 400)})
         res = {"go": go, "traces": []}
         if go.rc != 0 or not go.reports:
             return res
